@@ -1,35 +1,46 @@
 #!/bin/bash
-# Self-test of T3 (tools/gen_leaves.py + coq/theories/Proofs/LeavesOk.v).
+# Self-test of T3 (tools/gen_leaves.py + coq/theories/Proofs/Leaves<G>Ok.v, one generated file and one proof
+# file per group G: Utils, Line, SB, RSN, RSW, QV).
 #   usage: tools/test_gen_leaves.sh [repo]        (repo defaults to $QWT_REPO or /repo; read only)
-# Works on COPIES of the three Rust source files in <root>/selftest_tmp/<case>/src/... and on a symlink
+# Works on COPIES of the Rust source files in <root>/selftest_tmp/<case>/src/... and on a symlink
 # farm of coq/theories per case, so neither the repo nor the main Coq tree is touched by the mutants.
-#  (a) unmodified source: Gen/Leaves.v is produced in the main tree and Proofs/LeavesOk.vo builds
-#  (b) semantic mutations of the leaves: the generated definition changes and LeavesOk.v must FAIL
-#  (c) semantics-preserving rewrites: LeavesOk.v must still COMPILE
+#  (a) unmodified source: Gen/Leaves<G>.v are produced in the main tree and Proofs/Leaves<G>Ok.vo build
+#  (b) semantic mutations of the leaves: the generated definition of the group changes and Leaves<G>Ok.v must FAIL
+#  (c) semantics-preserving rewrites: Leaves<G>Ok.v must still COMPILE
 #  (d) unsupported syntax: the generator must exit non-zero naming function and construct
+# The file key of a case selects source file and group: U utils, Q line (DataLine), R sb, N rsn, W rsw, V qv (QVector).
 # Exit status 0 iff every row has the expected outcome.  ONLY=<regex> restricts the cases, JOBS=<n> the parallelism.
 set -u
 ROOT="$(cd "$(dirname "$0")/.." && pwd)"
 REPO="${1:-${QWT_REPO:-/repo}}"
 TMP="$ROOT/selftest_tmp"
-FILES="src/utils/mod.rs src/qvector/mod.rs src/qvector/rs_qvector/rs_support_plain.rs"
+FILES="src/utils/mod.rs src/qvector/mod.rs src/qvector/rs_qvector/rs_support_plain.rs src/bitvector/rs_narrow.rs src/bitvector/rs_wide.rs"
 U=src/utils/mod.rs; Q=src/qvector/mod.rs; R=src/qvector/rs_qvector/rs_support_plain.rs
+N=src/bitvector/rs_narrow.rs; W=src/bitvector/rs_wide.rs; V=src/qvector/mod.rs
+GROUPLIST="utils:Utils line:Line sb:SB rsn:RSN rsw:RSW qv:QV"
 rm -rf "$TMP"; mkdir -p "$TMP"
+key_info() {  # file key -> "source file|group|Generated-file infix"
+  case "$1" in U) echo "$U|utils|Utils";; Q) echo "$Q|line|Line";; R) echo "$R|sb|SB";;
+               N) echo "$N|rsn|RSN";; W) echo "$W|rsw|RSW";; V) echo "$V|qv|QV";; esac
+}
 
 # ---------------------------------------------------------------- (a) baseline in the main tree
 t0=$(date +%s.%N)
-python3 "$ROOT/tools/gen_leaves.py" --repo "$REPO" --out "$ROOT/coq/theories/Gen/Leaves.v" > "$TMP/base.gen.log" 2>&1
-base_gen=$?
+base_gen=0; : > "$TMP/base.gen.log"; targets=""
+for gg in $GROUPLIST; do
+  python3 "$ROOT/tools/gen_leaves.py" --repo "$REPO" --group "${gg%:*}" --out "$ROOT/coq/theories/Gen/Leaves${gg#*:}.v" >> "$TMP/base.gen.log" 2>&1 || base_gen=$?
+  targets="$targets theories/Proofs/Leaves${gg#*:}Ok.vo"
+done
 t1=$(date +%s.%N)
 base_build=1
 if [ $base_gen -eq 0 ]; then
-  rm -f "$ROOT/coq/theories/Proofs/LeavesOk.vo"     # force the re-check (and the Print Assumptions output)
-  (cd "$ROOT/coq" && timeout 1800 ./build.sh theories/Proofs/LeavesOk.vo) > "$TMP/base.build.log" 2>&1
+  for t in $targets; do rm -f "$ROOT/coq/$t"; done     # force the re-check (and the Print Assumptions output)
+  (cd "$ROOT/coq" && timeout 1800 ./build.sh $targets) > "$TMP/base.build.log" 2>&1
   base_build=$?
 fi
 t2=$(date +%s.%N)
 closed=$(grep -c "Closed under the global context" "$TMP/base.build.log" 2>/dev/null || true)
-printf "(a) baseline: generator rc=%d (%.2fs), build LeavesOk.vo rc=%d (%.1fs), %s theorems closed under the global context\n" \
+printf "(a) baseline: generator rc=%d (%.2fs), build Leaves*Ok.vo rc=%d (%.1fs), %s theorems closed under the global context\n" \
   $base_gen "$(echo "$t1 - $t0" | bc)" $base_build "$(echo "$t2 - $t1" | bc)" "$closed"
 if [ $base_gen -ne 0 ] || [ $base_build -ne 0 ]; then
   cat "$TMP/base.gen.log"; tail -20 "$TMP/base.build.log" 2>/dev/null; echo "SELFTEST FAILED (baseline)"; exit 1
@@ -55,6 +66,17 @@ mut|low-bit-mask-1-to-3-in-get|Q|1|(word_low >> cur_shift) & 1) as u8|(word_low 
 mut|msb-minus-1-to-2|U|1|* 8 - 1) as u32|* 8 - 2) as u32
 mut|get_rank-12-to-11|R|1|(block_id - not_first) * 12)|(block_id - not_first) * 11)
 mut|sb-shift-84-to-83|R|1|let sb = (data >> 84) as usize;|let sb = (data >> 83) as usize;
+mut|rsn-block_rank-reads-odd-entry|N|1|self.block_rank_pairs[block * 2] as usize|self.block_rank_pairs[block * 2 + 1] as usize
+mut|rsn-field-width-9-to-8|N|1|((7 - left) * 9) & 0x1FF;|((7 - left) * 8) & 0x1FF;
+mut|rsn-mask-0x1FF-to-0xFF|N|1|((7 - left) * 9) & 0x1FF;|((7 - left) * 9) & 0xFF;
+mut|rsn-const-BLOCK_SIZE-8-to-4|N|1|const BLOCK_SIZE: usize = 8;|const BLOCK_SIZE: usize = 4;
+mut|rsw-shift-128-44-to-128-45|W|1|(self.superblock_metadata[block] >> (128 - 44)) as usize|(self.superblock_metadata[block] >> (128 - 45)) as usize
+mut|rsw-left-ne-0-to-ne-1|W|2|if left != 0 {|if left != 1 {
+mut|rsw-7-minus-left-to-6|W|1|>> ((7 - left) * 12)) & 0b111111111111)|>> ((6 - left) * 12)) & 0b111111111111)
+mut|rsw-const-SUPERBLOCK_SIZE-8-to-4|W|1|const SUPERBLOCK_SIZE: usize = 8 * BLOCK_SIZE;|const SUPERBLOCK_SIZE: usize = 4 * BLOCK_SIZE;
+mut|rsw-superblock_rank-of-sub_block|W|1|result += self.superblock_rank(superblock);|result += self.superblock_rank(sub_block);
+mut|qv-len-shift-1-to-2|V|1|self.position >> 1\n    }|self.position >> 2\n    }
+mut|qv-is_empty-0-to-1|V|1|self.position == 0|self.position == 1
 pre|rename-local-byte_sums|U|0|byte_sums|bsums
 pre|rename-local-cur_shift|Q|0|cur_shift|cs
 pre|extra-parentheses|U|1|let k_step8 = k * k_ones_step8;|let k_step8 = ((k) * (k_ones_step8));
@@ -63,9 +85,19 @@ pre|reorder-independent-reads-normalize|Q|1|let word_low_0 = self.words[2] ^ mas
 pre|change-comment|Q|1|// offset within the last word|// position inside the last word (comment changed)
 pre|literal-spelling|Q|0|i & 127|i & 0x7F
 pre|compound-to-plain-assign|Q|1|rank += (word_1 & mask).count_ones();|rank = rank + (word_1 & mask).count_ones();
+pre|rsn-annotate-result|N|1|let mut result = 0;|let mut result: usize = 0;
+pre|rsn-rename-local-left|N|1|let left = sub_block % BLOCK_SIZE;\n        result += self.sub_block_ranks(block) >> ((7 - left) * 9) & 0x1FF;|let rem = sub_block % BLOCK_SIZE;\n        result += self.sub_block_ranks(block) >> ((7 - rem) * 9) & 511;
+pre|rsn-compound-to-plain-assign|N|1|result += self.block_rank(block);|result = result + self.block_rank(block);
+pre|rsw-literal-for-const-quotient|W|1|let superblock = sub_block / (SUPERBLOCK_SIZE / BLOCK_SIZE);|let superblock = sub_block / 8;
+pre|rsw-flip-comparison|W|2|if left != 0 {|if 0 != left {
+pre|rsw-shift-amount-literal-84|W|1|>> (128 - 44)) as usize|>> 84) as usize
+pre|qv-is_empty-flip|V|1|self.position == 0|0 == self.position
 uns|for-loop-in-normalize|Q|1|let mask_high = Self::REPEATEDSYMB|for _x in 0..1 {}\n        let mask_high = Self::REPEATEDSYMB
 uns|signed-cast-in-select|U|1|let k_step8 = k * k_ones_step8;|let k_step8 = (k as i64 as u64) * k_ones_step8;
 uns|untyped-literal-let|Q|1|let mask_full = u128::MAX;|let mask_full = u128::MAX; let _unused = 5;
+uns|rsn-uses-opaque-field|N|1|self.block_rank_pairs[block * 2] as usize|self.block_rank_pairs[block * 2 + self.bv.len()] as usize
+uns|rsw-if-else-assign|W|1|as usize;\n        }\n        result|as usize;\n        } else {\n            result += 1;\n        }\n        result
+uns|rsw-assign-in-nested-if|W|2|if left != 0 {|if left != 0 { if left != 1 { result += 1; }
 EOF
 )
 
@@ -73,7 +105,7 @@ run_case() {  # runs in a subshell; writes $TMP/<name>.result = "gen_rc changed 
   local kind="$1" name="$2" fkey="$3" occ="$4" old="$5" new="$6"
   local d="$TMP/$name"; mkdir -p "$d"
   for f in $FILES; do mkdir -p "$d/$(dirname $f)"; cp "$REPO/$f" "$d/$f"; done
-  local file; case "$fkey" in U) file=$U;; Q) file=$Q;; R) file=$R;; esac
+  local file group G; IFS='|' read -r file group G <<< "$(key_info "$fkey")"
   python3 - "$d/$file" "$occ" "$old" "$new" <<'PY' || { echo "X X X 0 mutation-did-not-apply" > "$TMP/$name.result"; return; }
 import sys
 path, occ, old, new = sys.argv[1], int(sys.argv[2]), sys.argv[3].replace("\\n", "\n"), sys.argv[4].replace("\\n", "\n")
@@ -93,14 +125,14 @@ PY
   local s0=$(date +%s.%N)
   mkdir -p "$d/theories"
   cp -rs "$ROOT/coq/theories/." "$d/theories/"            # symlink farm of the main tree
-  rm -f "$d"/theories/Gen/Leaves.* "$d"/theories/Proofs/LeavesOk.* "$d"/theories/Gen/.Leaves.aux "$d"/theories/Proofs/.LeavesOk.aux
-  cp "$ROOT/coq/theories/Proofs/LeavesOk.v" "$d/theories/Proofs/LeavesOk.v"
-  python3 "$ROOT/tools/gen_leaves.py" --repo "$d" --out "$d/theories/Gen/Leaves.v" > "$d/gen.log" 2>&1
+  rm -f "$d"/theories/Gen/Leaves$G.* "$d"/theories/Proofs/Leaves${G}Ok.* "$d"/theories/Gen/.Leaves$G.aux "$d"/theories/Proofs/.Leaves${G}Ok.aux
+  cp "$ROOT/coq/theories/Proofs/Leaves${G}Ok.v" "$d/theories/Proofs/Leaves${G}Ok.v"
+  python3 "$ROOT/tools/gen_leaves.py" --repo "$d" --group "$group" --out "$d/theories/Gen/Leaves$G.v" > "$d/gen.log" 2>&1
   local grc=$? changed=- crc=-
   if [ $grc -eq 0 ]; then
-    if cmp -s "$d/theories/Gen/Leaves.v" "$ROOT/coq/theories/Gen/Leaves.v"; then changed=same; else changed=CHANGED; fi
-    ( cd "$d" && timeout 900 coqc -Q theories QwtModel -w -notation-overridden theories/Gen/Leaves.v \
-        && timeout 900 coqc -Q theories QwtModel -w -notation-overridden theories/Proofs/LeavesOk.v ) > "$d/coq.log" 2>&1
+    if cmp -s "$d/theories/Gen/Leaves$G.v" "$ROOT/coq/theories/Gen/Leaves$G.v"; then changed=same; else changed=CHANGED; fi
+    ( cd "$d" && timeout 900 coqc -Q theories QwtModel -w -notation-overridden theories/Gen/Leaves$G.v \
+        && timeout 900 coqc -Q theories QwtModel -w -notation-overridden theories/Proofs/Leaves${G}Ok.v ) > "$d/coq.log" 2>&1
     crc=$?
   fi
   local s1=$(date +%s.%N)
@@ -118,7 +150,7 @@ wait
 
 # ---------------------------------------------------------------- table
 fail=0
-printf "\n%-4s %-38s %-9s %-9s %-22s %-5s %s\n" kind case generator Leaves.v LeavesOk.v secs verdict
+printf "\n%-4s %-38s %-9s %-9s %-22s %-5s %s\n" kind case generator "Leaves<G>.v" "Leaves<G>Ok.v" secs verdict
 while IFS='|' read -r kind name fkey occ old new; do
   [ -z "$kind" ] && continue
   [ -n "${ONLY:-}" ] && ! echo "$name" | grep -Eq "$ONLY" && continue
